@@ -96,9 +96,10 @@ I32 = [0, 1, -1, 127, 128, 255, 256, 65535, 65536, (1 << 24), (1 << 31) - 1, -(1
 
 
 class Gen:
-    def __init__(self, rng, big=False):
+    def __init__(self, rng, big=False, over=False):
         self.r = rng
         self.big = big
+        self.over = over      # hostile generator: sometimes one byte / one element MORE than the declared limit
         self.c = consts()
         self.hits = {}
 
@@ -107,6 +108,9 @@ class Gen:
 
     def blen(self, mx, small=24):
         r = self.r
+        if self.over and mx <= 20000 and r.chance(1, 4):
+            self.hit("len=max+1")
+            return mx + 1
         if r.chance(1, 3):
             c = [b for b in LEN_BOUNDS + [mx - 1, mx] if 0 <= b <= mx]
             n = r.choice(c)
@@ -167,6 +171,8 @@ class Gen:
     def layers(self):
         r = self.r
         n = r.choice([0, 1, 2, 39, 40]) if r.chance(1, 3) else r.below(6)
+        if self.over and r.chance(1, 4):
+            n = 41
         self.hit("layers=%d" % n if n in (0, 40) else "layers=other")
         return [self.bytes_(32) for _ in range(n)]
 
@@ -181,7 +187,7 @@ class Gen:
         h = self.blen(c["MAX_HEADER_SIZE_PUBLICATION_DATA"], 90)
         ci = self.blen(c["MAX_CONTEXT_SIZE_PUBLICATION_DATA"], 60)
         po = self.blen(c["MAX_PAYOUT_INFO_SIZE"], 40)
-        if nested and 9 + 3 * 3 + h + ci + po > c["MAX_PUBLICATIONDATA_SIZE"]:
+        if nested and not self.over and 9 + 3 * 3 + h + ci + po > c["MAX_PUBLICATIONDATA_SIZE"]:
             # the canonical encoding must fit the var-len wrapper of VbkTx (MAX_PUBLICATIONDATA_SIZE)
             po = max(0, c["MAX_PUBLICATIONDATA_SIZE"] - (9 + 9 + h + ci))
             self.hit("pubdata=at-nested-limit")
@@ -197,6 +203,8 @@ class Gen:
     def vbktx(self):
         r = self.r
         n = r.choice([0, 1, 2, 254, 255]) if r.chance(1, 4) else r.below(4)
+        if self.over and r.chance(1, 8):
+            n = 256
         self.hit("outputs=%d" % n if n in (0, 255) else "outputs=other")
         return Rec((self.nbp(self.c["TX_TYPE_VBK_TX"]), self.address(), self.coin(), [self.output() for _ in range(n)],
                     self.i64(), self.pubdata(nested=True),
@@ -273,7 +281,7 @@ class Enc:
         self.fields.append((field, n))
         if k in self.plan and self.plan[k][0] is not None:
             n = self.plan[k][0]
-        return bytes([n & 0xff])
+        return bytes([n & 0xff])  # like the C++ (uint8_t) cast
 
     def sbl(self, b, field="sbl"):
         return self.u8len(len(b), field) + b
